@@ -113,7 +113,9 @@ def reify_edges(g: Graph, model: Model) -> Graph:
             # the tree; maybe this should be a tree operation?
         else:
             new_triples.append(triple)
-    g = Graph(new_triples, epidata=new_epidata, metadata=g.metadata)
+    g = Graph(
+        new_triples, top=g.top, epidata=new_epidata, metadata=g.metadata
+    )
     logger.info('Reified edges: %s', g)
     return g
 
@@ -159,7 +161,9 @@ def dereify_edges(g: Graph, model: Model) -> Graph:
                 del new_epidata[triple]
         else:
             new_triples.append(triple)
-    g = Graph(new_triples, epidata=new_epidata, metadata=g.metadata)
+    g = Graph(
+        new_triples, top=g.top, epidata=new_epidata, metadata=g.metadata
+    )
     logger.info('Dereified edges: %s', g)
     return g
 
@@ -207,7 +211,9 @@ def reify_attributes(g: Graph) -> Graph:
             new_epidata[node_triple] = node_epis + [POP]
         else:
             new_triples.append(triple)
-    g = Graph(new_triples, epidata=new_epidata, metadata=g.metadata)
+    g = Graph(
+        new_triples, top=g.top, epidata=new_epidata, metadata=g.metadata
+    )
     logger.info('Reified attributes: %s', g)
     return g
 
@@ -260,7 +266,7 @@ def indicate_branches(g: Graph, model: Model) -> Graph:
                 assert isinstance(t[2], str)
                 new_triples.append((t[2], model.top_role, t[0]))
         new_triples.append(t)
-    g = Graph(new_triples, epidata=g.epidata, metadata=g.metadata)
+    g = Graph(new_triples, top=g.top, epidata=g.epidata, metadata=g.metadata)
     logger.info('Indicated branches: %s', g)
     return g
 
